@@ -4,7 +4,7 @@ from ..model import Unknown
 from .c05 import env_of
 
 PLAN = {
-    "quick": {"shards": 8, "cases": 260, "min_nontrivial": 800, "budget_s": 240},
+    "quick": {"shards": 8, "cases": 700, "min_nontrivial": 2500, "budget_s": 300},
     "thorough": {"shards": 16, "cases": 4500, "min_nontrivial": 25000, "budget_s": 1500},
 }
 RULE = ("schemas with constant, callable and absent defaults on every field family at depth <= 3 (typed lists/dicts "
